@@ -4,6 +4,7 @@ import Eru.Lock.Order
 import Eru.Lock.Redis
 import Eru.Lock.Etcd
 import Eru.Lock.Ctx
+import Eru.Lock.Spec
 /- Oracle for the lock group (C18–C21): runs the model on the case, compares with the
    implementation's result and evaluates the specification predicates on the implementation's
    output. Not part of any model or proof. -/
@@ -202,64 +203,21 @@ def etcdCmd (c : SCmd) : Option Etcd.Cmd :=
   | "sleep" => some (.sleep c.dt)
   | _ => none
 
-/-- protocol-independent specification evaluated on the implementation's results:
-    holders = clients whose Lock/TryLock/join returned success and that have not unlocked;
-    a holder is within its lease until `acquiredAt + ttl` on the server clock (Redis) / until its
-    lease is revoked (etcd). -/
-structure SpecSt where
-  now : Nat := 0
-  holders : List (Nat × Nat) := []     -- (client, acquired at)
-  lost : List Nat := []                -- etcd: clients whose lease was revoked
-  lostAtStep : List (Nat × Nat) := []
-  viol : List String := []
-  overlap : Bool := false              -- some acquisition happened while another client was inside (lease gone)
-  queued : List Nat := []              -- waiters blocked in Lock (etcd: their key is in the queue)
+def opOf (s : String) : Spec.Op :=
+  match s with
+  | "lock" => .lock | "trylock" => .tryLock | "unlock" => .unlock | "ff" => .ff | "lockasync" => .lockAsync
+  | "join" => .join | "revoke" => .revoke | "observe" => .observe | "sleep" => .sleep | _ => .unknown
 
-def withinLease (redis : Bool) (ttl : Nat) (st : SpecSt) (h : Nat × Nat) : Bool :=
-  if redis then st.now < h.2 + ttl else !st.lost.contains h.1
+def outOf (s : String) : Spec.Out :=
+  match s with
+  | "acquired" => .acquired
+  | "not-obtained" => .refused | "locked" => .refused | "timeout" => .refused | "session-expired" => .refused
+  | "blocked" => .blocked | "ctx-live" => .ctxLive | "ctx-session-done" => .ctxDone | "ctx-cancelled" => .ctxDone
+  | _ => .other
 
-def specStep (redis : Bool) (ttl wait : Nat) (st : SpecSt) (c : SCmd) (res : String) (flag : String) : SpecSt :=
-  let slow := flag == "slow"
-  let liveOthers := st.holders.filter fun h => h.1 != c.c && withinLease redis ttl st h
-  let isAcq := c.op == "lock" || c.op == "trylock" || c.op == "lockasync" || c.op == "join"
-  if isAcq && res == "acquired" then
-    let already := st.holders.any (·.1 == c.c)
-    let v := if liveOthers.isEmpty then [] else ["C18:two-holders-within-lease"]
-    let others := st.holders.filter (·.1 != c.c)
-    { st with holders := if already then st.holders else (c.c, st.now) :: st.holders, viol := st.viol ++ v,
-              overlap := st.overlap || (!already && !others.isEmpty), queued := st.queued.filter (· != c.c) }
-  else if isAcq && (res == "not-obtained" || res == "locked" || res == "timeout") then
-    -- a client blocked in Lock may get the key at any moment (etcd: its queued key is older; redis: its
-    -- next retry): refusing a later client then is legitimate
-    let behindQueue := !(st.queued.filter (· != c.c)).isEmpty
-    -- a redis waiter only looks again at its retry instants (every 500 ms): with a wait timeout of at
-    -- most one interval it never retries before its deadline
-    let neverRetries := redis && c.op == "join" && wait ≤ 500
-    let v1 := if liveOthers.isEmpty && !behindQueue && !neverRetries && c.op != "lockasync" then ["C18:refused-when-free"] else []
-    let v2 := if c.op == "trylock" && slow then ["C18:trylock-waited"] else []
-    -- a waiting Lock fails when its wait timeout expires: not (much) before, not (much) after
-    let v3 := if c.op != "trylock" && flag == "early" then ["C18:waiter-gave-up-early"] else []
-    let v4 := if c.op != "trylock" && flag == "late" then ["C18:waiter-overstayed"] else []
-    { st with viol := st.viol ++ v1 ++ v2 ++ v3 ++ v4, queued := st.queued.filter (· != c.c) }
-  else if isAcq && res == "blocked" then
-    let behindQueue := !(st.queued.filter (· != c.c)).isEmpty
-    { st with viol := st.viol ++ (if liveOthers.isEmpty && !behindQueue then ["C18:blocked-when-free"] else []),
-              queued := c.c :: st.queued }
-  else if c.op == "unlock" then { st with holders := st.holders.filter (·.1 != c.c) }
-  else if c.op == "ff" then { st with now := st.now + c.dt }
-  else if c.op == "revoke" then { st with lost := c.c :: st.lost }
-  else if c.op == "observe" then
-    -- C19: a holder that lost its lock (TTL elapsed / lease revoked) must have been told
-    let me := st.holders.find? (·.1 == c.c)
-    match me with
-    | some h =>
-      if !withinLease redis ttl st h && res == "ctx-live" then
-        { st with viol := st.viol ++ [if redis then "C19:redis-ttl-expiry-not-signalled" else "C19:etcd-loss-not-signalled"] }
-      else if !withinLease redis ttl st h && slow then { st with viol := st.viol ++ ["C19:signalled-late"] }
-      else if withinLease redis ttl st h && res != "ctx-live" then { st with viol := st.viol ++ ["C19:cancelled-while-holding"] }
-      else st
-    | none => st
-  else st
+def flagOf (s : String) : Spec.Flag :=
+  match s with
+  | "slow" => .slow | "early" => .early | "late" => .late | _ => .none
 
 def handleMultiKey (j : Json) : Json :=
   let id := jget j "id"
@@ -297,11 +255,8 @@ def handleSched (j : Json) : Json :=
       (Etcd.replay ttl Etcd.init (cmds.filterMap etcdCmd)).map Etcd.Res.str
   let wellFormed := if redis then cmds.all (fun c => (redisCmd c).isSome) else cmds.all (fun c => (etcdCmd c).isSome)
   let agree := wellFormed && model == ires && !jhas impl "panic"
-  let rec go (st : SpecSt) : List SCmd → List String → List String → SpecSt
-    | c :: cs, r :: rs, sl :: sls => go (specStep redis ttl wait st c r sl) cs rs sls
-    | c :: cs, r :: rs, [] => go (specStep redis ttl wait st c r "") cs rs []
-    | _, _, _ => st
-  let fin := go {} cmds ires islow
+  let scmds : List Spec.SCmd := cmds.map fun c => ⟨opOf c.op, c.c, c.dt⟩
+  let fin := Spec.specRun redis ttl wait {} scmds (ires.map outOf) (islow.map flagOf)
   let hasAsync := cmds.any (·.op == "lockasync")
   let hasLoss := cmds.any (fun c => c.op == "revoke" || c.op == "observe")
   let contended := ires.any (fun r => r == "not-obtained" || r == "locked" || r == "timeout" || r == "blocked")
@@ -315,7 +270,7 @@ def handleSched (j : Json) : Json :=
   -- design took > 300 ms, client-side deadlines hit): mutual exclusion and missing loss signals are still judged on the results,
   -- outcome equality and the timing clauses are not
   if jbool (jget impl "timing_off") then
-    let v := ((go {} cmds ires islow).viol.eraseDups).filter fun x =>
+    let v := ((Spec.specRun redis ttl wait {} scmds (ires.map outOf) (islow.map flagOf)).viol.eraseDups).filter fun x =>
       x == "C18:two-holders-within-lease" || x == "C19:redis-ttl-expiry-not-signalled" || x == "C19:etcd-loss-not-signalled"
     verdict id true (jstrs model) v "timing-off" true else
   verdict id agree (jstrs model) fin.viol.eraseDups cls (!contended && !fin.overlap && !hasLoss)
